@@ -744,6 +744,9 @@ func (rt *runtime) toValue(value interface{}) Value {
 			typ := val.Type()
 
 			return objectValue(rt.newNativeFunction(name, file, line, func(c FunctionCall) Value {
+				// The runtime of the call, not the one this wrapper was made in:
+				// the wrapper is shared with copies of the runtime.
+				rt := c.runtime
 				nargs := typ.NumIn()
 
 				if len(c.ArgumentList) != nargs {
